@@ -79,6 +79,41 @@ Theorem c08_gamespy3_query_any_order : forall port s dgs, wf_s3 s = true ->
 Proof. exact gs3_query_any_order. Qed.
 Print Assumptions c08_gamespy3_query_any_order.
 
+(* GameSpy 1: the parts of a reply (each "queryid\<id>.<n>", the last one also "final"), each once, in ANY arrival order:
+   the loop goes on until every part has arrived - also when the part carrying "final" comes first -, refuses nothing, and
+   the variables it returns are those of the reply sent in order as a finite map: a permutation of the association list
+   with distinct names, which is what the public query_vars (a HashMap) returns.  (The typed response on top of these
+   variables for other arrival orders is decided by the permutation stream of the check.) *)
+From GD Require Import Proofs.Str Proofs.Gamespy1Assembly Proofs.Gamespy1Order.
+Theorem c08_gamespy1_parts_mean : forall qid ff p,
+  p_text qid ff p = concat (map (Str.chunk 92) (p_grp p ++ (if p_last p
+      then (if ff then [(str "final", []); (str "queryid", show_N qid ++ [46] ++ show_N (p_idx p))]
+            else [(str "queryid", show_N qid ++ [46] ++ show_N (p_idx p)); (str "final", [])])
+      else [(str "queryid", show_N qid ++ [46] ++ show_N (p_idx p))]))).
+Proof. reflexivity. Qed.
+Print Assumptions c08_gamespy1_parts_mean.
+Theorem c08_gamespy1_loop_any_order : forall (todo done : list part1) qid ff n fuel t f sn cur tr,
+  todo <> [] -> (length todo <= fuel)%nat ->
+  NoDup (map p_idx (done ++ todo)) ->
+  (forall p, In p (done ++ todo) -> 0 < p_idx p <= N.of_nat n /\ p_grp p <> [] /\ Forall pair_ok (p_grp p)
+                                    /\ (length (p_text qid ff p) <= 1024)%nat /\ (p_last p = true <-> p_idx p = N.of_nat n)) ->
+  length (done ++ todo) = n -> qid <= 18446744073709551615 -> N.of_nat n < 4294967296 ->
+  exists tr',
+    gs1_loop fuel (match done with [] => None | _ => Some qid end) (map p_idx done)
+             (if seen_last done then Some (N.of_nat n) else None) (vals_of done)
+             (mknet (map Datagram (map (p_text qid ff) todo)) t f sn cur tr)
+    = (Ok (vals_of (done ++ todo)), mknet [] t f sn cur tr').
+Proof. exact gs1_parts_any_order. Qed.
+Print Assumptions c08_gamespy1_loop_any_order.
+Theorem c08_gamespy1_vars_any_order : forall port s dgs,
+  Forall pair_ok (s1_vars s) -> s1_qid s <= 18446744073709551615 ->
+  Forall (fun d => (length d <= 1024)%nat) (s1_script s) -> N.of_nat (length (s1_script s)) < 4294967296 ->
+  NoDup (map fst (s1_vars s)) ->
+  Permutation dgs (s1_script s) ->
+  exists vals, fst (gs1_query_vars port None (script_net dgs)) = Ok vals /\ Permutation vals (s1_vars s) /\ NoDup (map fst vals).
+Proof. exact gs1_vars_any_order. Qed.
+Print Assumptions c08_gamespy1_vars_any_order.
+
 (* tests: a generated multi-packet GameSpy 3 response and a multi-part GameSpy 1
    response, received in reverse order, give the in-order result *)
 Example c08_ex_gamespy :
